@@ -33,6 +33,25 @@ def make_aligner(name):
     raise ValueError(name)
 
 
+def relayout(data, layout):
+    """same values, different memory layout of the observation arrays: Fortran order or a strided (non-contiguous) view"""
+    if layout == 'c':
+        return
+    for k in ('y', 'e'):
+        if k in data and isinstance(data[k], np.ndarray) and data[k].ndim >= 2:
+            x = data[k]
+            if layout == 'f':
+                data[k] = np.asfortranarray(x)
+            elif layout == 'tview':
+                # a (T, F, E) network output transposed to (F, T, E), or leading axes swapped: non-contiguous view
+                if x.ndim >= 3:
+                    data[k] = np.ascontiguousarray(np.swapaxes(x, 0, -2)).swapaxes(0, -2)
+                else:
+                    big = np.zeros(x.shape[:-1] + (2 * x.shape[-1],), dtype=x.dtype)
+                    big[..., ::2] = x
+                    data[k] = big[..., ::2]
+
+
 def build(case):
     rng = gen.rng_of(case)
     s = Scenario()
@@ -41,7 +60,8 @@ def build(case):
     K, N, D = case['K'], case['N'], case['D']
     real = kind in models.REAL
     dt = DT[case.get('dtype', 'f64' if real else 'c128')]
-    s.data = models.make_data(rng, kind, lead, K, N, D, cls=case.get('cls', 'gauss'), dtype=dt, E=case.get('E'), spread=case.get('spread', 3.0))
+    s.data = models.make_data(rng, kind, lead, K, N, D, cls=case.get('cls', 'gauss'), dtype=dt, E=case.get('E'), spread=case.get('spread', 3.0), offset=case.get('offset', 0.0))
+    relayout(s.data, case.get('layout', 'c'))
     s.K, s.N, s.D, s.lead = K, N, D, lead
     aff_shape = (*lead, K, N)
     s.aff_shape = aff_shape
@@ -140,6 +160,8 @@ def build(case):
         copts.setdefault('affiliation_eps', 0.0)
     if kind == 'cbmm':
         copts.setdefault('max_concentration', np.inf)
+    if o.get('trainer_dimension') and kind in ('cwmm', 'cbmm'):
+        tkw['dimension'] = D
     if o.get('aligner'):
         opts['inline_permutation_aligner'] = make_aligner(o['aligner'])
     if o.get('fixed_covariance'):
@@ -240,8 +262,10 @@ def sample_opts(rng, kind, lead, full=True):
             o['aligner'] = pick(['greedy-cos', 'greedy-euclidean'])
         o['max_concentration'] = pick([500, 500, 100])
     if kind == 'cbmm':
-        o['affiliation_eps'] = pick([0.0, 1e-10])
+        o['affiliation_eps'] = pick([0.0, 1e-10, 1e-3])
         o['max_concentration'] = pick([500, 1000])
+    if kind in ('cwmm', 'cbmm'):
+        o['trainer_dimension'] = bool(rng.uniform() < 0.3)
     if kind in ('gmm', 'gcacgmm'):
         o['covariance_type'] = pick(['full', 'diagonal', 'spherical'])
         if rng.uniform() < 0.15:
